@@ -74,7 +74,7 @@ class ScaledValueExpression(inline.InlineElement):  # type: ignore
 
     # Matches fractions, e.g. "1/2" and "3 1/2"
     fraction_pattern = re.compile(
-        r"(?:((?P<integer>[0-9]+)[ \t]+)?(?P<numerator>[0-9]+)[ \t]*/[ \t]*(?P<denominator>[0-9]+))"
+        r"(?:((?P<integer>[0-9]+)[ \t]+)?(?P<numerator>[0-9]+)[ \t]*/[ \t]*(?P<denominator>0*[1-9][0-9]*))"
     )
 
     # Matches decimal values, e.g. "123" or "1.234"
